@@ -53,10 +53,13 @@ def _subs(tier):
             continue
         if tier == 'quick' and L == 3 and op in ('unreg1-rereg1', 'reg2-unreg1-rereg1'):
             continue
+        two = len({o[2] for o in OPS[op]}) == 2
+        if tier != 'quick' and two and (cyc is True or (prio == 'high' and op != 'reg2-unreg1')):
+            continue      # sized to the budget: explicit True behaves like the default; one two-instant pattern at high priority
         params = [[f'd{i}', 0, T] for i in range(L)] + [['H', 0, 4 * T]]
         ts = sorted({o[2] for o in OPS[op]})
         params += [[t, 0, 4 * T] for t in ts]
-        periods = 2 if tier == 'quick' else 3
+        periods = 2 if (tier == 'quick' or (L == 3 and two)) else 3
         pre = [' + '.join(f'd{i}' for i in range(L)) + ' >= 1', f'H < {periods} * (' + ' + '.join(f'd{i}' for i in range(L)) + ')']
         if len(ts) == 2:
             pre.append('t0 <= t1')
@@ -78,7 +81,7 @@ def bounds_text(tier):
     return ('timetables of ' + ('2-3' if tier == 'quick' else '1-3') + ' entries (states A,B / A,B,A: a repeated state included) with '
             'symbolic integer durations >= 0 (sum >= 1), is_cyclical in {default, True, False}, objects o1 (default action) and o2 '
             '(override action) with register / unregister / duplicate-register / unknown-unregister operations issued by events '
-            'of low or high priority at symbolic instants, horizon symbolic < ' + ('2' if tier == 'quick' else '3') + ' periods; every tie-break order')
+            'of low or high priority at symbolic instants, horizon symbolic < ' + ('2' if tier == 'quick' else '3 (2 for three entries with two operation instants)') + ' periods; every tie-break order')
 
 
 def required_goals(tier):
